@@ -1439,3 +1439,295 @@ func lemmaForwardSession(raw *rawEnvelope) (e *Session, e3 *Session, accepted bo
 	e3, ok = env2.(*Session)
 	return e, e3, true, ok
 }
+
+// ---------------------------------------------------------------------------
+// Transport model (DESIGN.md §3.5) and channel helpers shared by the handshake
+// properties C03 C06 C07 C08 C09 C10 C14
+// ---------------------------------------------------------------------------
+
+//@ spec fn reflNil(v reflect.Value) bool = uninterpreted
+
+//@ interface Transport
+//@   ghost field connected bool
+//@   ghost field enc SessionEncryption
+//@   ghost field comp SessionCompression
+//@   ghost field nSent int
+//@   ghost field lastSent envelope
+//@   ghost field nSentSes int
+//@   ghost field lastSes *Session
+//@   ghost field nRecv int
+//@   ghost field lastRecv envelope
+
+//@ method Transport.Connected(t) (result)
+//@   pure
+//@   ensures result == t.connected
+
+//@ method Transport.Send(t, ctx, e) (err)
+//@   requires e != nil && !payloadnil(e)
+//@   modifies t.nSent, t.lastSent, t.nSentSes, t.lastSes, t.connected
+//@   ensures err == nil ==> old(t.connected) && t.nSent == old(t.nSent) + 1 && t.lastSent == e
+//@   ensures err == nil && istype(e, *Session) ==> t.nSentSes == old(t.nSentSes) + 1 && t.lastSes == e.(*Session)
+//@   ensures err == nil && !istype(e, *Session) ==> t.nSentSes == old(t.nSentSes) && t.lastSes == old(t.lastSes)
+//@   ensures err != nil ==> t.nSent == old(t.nSent) && t.lastSent == old(t.lastSent) && t.nSentSes == old(t.nSentSes) && t.lastSes == old(t.lastSes)
+//@   ensures t.connected ==> old(t.connected)
+
+//@ method Transport.Receive(t, ctx) (env, err)
+//@   modifies t.nRecv, t.lastRecv, t.connected
+//@   ensures err == nil ==> env != nil && !payloadnil(env) && t.lastRecv == env && t.nRecv == old(t.nRecv) + 1
+//@   ensures err != nil ==> t.lastRecv == old(t.lastRecv) && t.nRecv == old(t.nRecv)
+//@   ensures t.connected ==> old(t.connected)
+//@   note a received envelope is a non-nil pointer of one of the five envelope kinds (closed world: interface envelope has unexported methods)
+
+//@ method Transport.Close(t) (err)
+//@   modifies t.connected
+//@   ensures !t.connected
+
+//@ method Transport.Encryption(t) (result)
+//@   pure
+//@   ensures result == t.enc
+//@ method Transport.Compression(t) (result)
+//@   pure
+//@   ensures result == t.comp
+//@ method Transport.SetEncryption(t, ctx, e) (err)
+//@   modifies t.enc
+//@   ensures err == nil ==> t.enc == e
+//@   ensures err != nil ==> t.enc == old(t.enc)
+//@ method Transport.SetCompression(t, ctx, c) (err)
+//@   modifies t.comp
+//@   ensures err == nil ==> t.comp == c
+//@   ensures err != nil ==> t.comp == old(t.comp)
+
+//@ spec fn step(s SessionState) int = ite(s == SessionStateNew, 0, ite(s == SessionStateNegotiating, 1, ite(s == SessionStateAuthenticating, 2, ite(s == SessionStateEstablished, 3, ite(s == SessionStateFinishing, 4, ite(s == SessionStateFinished, 5, ite(s == SessionStateFailed, 6, -1)))))))
+//@ spec fn transportOK(c *channel) bool = c.transport != nil && !payloadnil(c.transport) && c.transport.connected
+
+//@ func (SessionState).Step
+//@   props C07 C08
+//@   ensures result == step(s)
+//@   modifies nothing
+
+//@ func (*channel).State
+//@   props C06 C07 C08
+//@   requires c != nil
+//@   ensures result == c.state
+//@   modifies nothing
+
+//@ func (*channel).ensureTransportOK
+//@   props C06 C07 C08 C14
+//@   requires c != nil
+//@   ensures (result == nil) == transportOK(c)
+//@   modifies nothing
+
+//@ func (*channel).ensureState
+//@   props C06 C07 C08
+//@   requires c != nil
+//@   ensures (result == nil) == (transportOK(c) && c.state == state)
+//@   modifies nothing
+
+//@ func (*channel).ensureEstablished
+//@   props C06
+//@   requires c != nil
+//@   ensures (result == nil) == (transportOK(c) && c.state == SessionStateEstablished)
+//@   modifies nothing
+
+//@ func (*channel).setStateWLock
+//@   props C07 C08
+//@   requires c != nil
+//@   panics only-if step(state) < step(c.state)
+//@   modifies c.state
+//@   ensures c.state == state
+
+//@ func (*channel).setState
+//@   props C06 C07 C08
+//@   requires c != nil
+//@   panics only-if step(state) < step(c.state)
+//@   modifies c.state, c.startRcv.fired, c.stopRcv.fired
+//@   ensures c.state == state
+//@   ensures state == SessionStateEstablished ==> c.startRcv.fired
+//@   ensures state != SessionStateEstablished ==> c.startRcv.fired == old(c.startRcv.fired)
+//@   ensures state == SessionStateFinished || state == SessionStateFailed ==> c.stopRcv.fired
+//@   ensures state != SessionStateFinished && state != SessionStateFailed ==> c.stopRcv.fired == old(c.stopRcv.fired)
+
+//@ func (*channel).sendSession
+//@   props C06 C07 C08
+//@   requires c != nil && ses != nil
+//@   modifies c.transport.nSent, c.transport.lastSent, c.transport.nSentSes, c.transport.lastSes, c.transport.connected
+//@   ensures result == nil ==> old(transportOK(c)) && old(c.state) != SessionStateFinished && old(c.state) != SessionStateFailed
+//@   ensures result == nil ==> c.transport.nSentSes == old(c.transport.nSentSes) + 1 && c.transport.lastSes == ses && c.transport.nSent == old(c.transport.nSent) + 1
+//@   ensures result != nil ==> c.transport.nSentSes == old(c.transport.nSentSes) && c.transport.lastSes == old(c.transport.lastSes) && c.transport.nSent == old(c.transport.nSent)
+//@   ensures c.transport != nil && c.transport.connected ==> old(c.transport.connected)
+
+//@ func (*channel).receiveSession
+//@   props C06 C07 C08
+//@   requires c != nil
+//@   panics only-if ctx == nil
+//@   modifies c.transport.nRecv, c.transport.lastRecv, c.transport.connected
+//@   ensures err == nil ==> result0 != nil
+//@   ensures err != nil ==> result0 == nil
+//@   ensures old(c.state) == SessionStateFinished ==> err != nil
+//@   ensures err == nil && old(c.state) != SessionStateEstablished ==> old(transportOK(c)) && c.transport.nRecv == old(c.transport.nRecv) + 1 && istype(c.transport.lastRecv, *Session) && c.transport.lastRecv.(*Session) == result0
+//@   ensures err != nil || old(c.state) == SessionStateEstablished ==> c.transport.nRecv == old(c.transport.nRecv) || (err != nil && !istype(c.transport.lastRecv, *Session))
+//@   ensures c.transport != nil && c.transport.connected ==> old(c.transport.connected)
+//@   ensures c.transport.nRecv >= old(c.transport.nRecv)
+
+// Inbound streams carry non-nil envelopes (established by the receiver, which
+// forwards only what Transport.Receive returned: non-nil pointers).
+//@ struct channel
+//@   chaninv inMsgChan : v != nil
+//@   chaninv inNotChan : v != nil
+//@   chaninv inReqCmdChan : v != nil
+//@   chaninv inRespCmdChan : v != nil
+//@   chaninv inSesChan : v != nil
+
+// ---------------------------------------------------------------------------
+// C08 - client handshake tolerates any server and reports establishment truthfully
+// ---------------------------------------------------------------------------
+
+//@ spec fn lastSes(c *channel) *Session = c.transport.lastRecv.(*Session)
+//@ spec fn synced(c *channel) bool = istype(c.transport.lastRecv, *Session) && lastSes(c) != nil && c.sessionID == lastSes(c).ID && c.state == lastSes(c).State
+//@ spec fn cliOK(c *ClientChannel) bool = c != nil && c.channel != nil && c.client && c.transport != nil && !payloadnil(c.transport)
+
+//@ interface Authentication
+//@ method Authentication.GetAuthenticationScheme(a) (result)
+//@   pure
+
+//@ func (*Session).SetAuthentication
+//@   props C08
+//@   requires s != nil && a != nil
+//@   modifies s.Authentication, s.Scheme
+//@   ensures s.Authentication == a
+
+// Client-side obligations on every session envelope written (statement of C08):
+// the first one is a fresh 'new' session without id; every later one echoes the
+// id of the server's latest session envelope; credentials only in answer to an
+// authentication request.
+//@ func (*channel).sendSession
+//@   requires [C08] @first c.client && c.transport != nil && c.transport.nRecv == 0 ==> ses.ID == "" && ses.State == SessionStateNew && ses.Authentication == nil
+//@   requires [C08] @echo c.client && c.transport != nil && c.transport.nRecv > 0 && c.state != SessionStateEstablished ==> istype(c.transport.lastRecv, *Session) && ses.ID == lastSes(c).ID
+//@   requires [C08] @cred c.client && ses.Authentication != nil ==> c.transport != nil && istype(c.transport.lastRecv, *Session) && lastSes(c).State == SessionStateAuthenticating
+//@   requires [C08] @estid c.client && c.state == SessionStateEstablished ==> ses.ID == c.sessionID
+
+//@ func (*ClientChannel).receiveSessionFromServer
+//@   props C08
+//@   ensures err == nil && result0.State == SessionStateEstablished ==> c.startRcv.fired
+//@   ensures c.startRcv.fired && !old(c.startRcv.fired) ==> step(c.state) >= 3
+//@   ensures c.transport.nRecv >= old(c.transport.nRecv)
+//@   ensures step(c.state) >= step(old(c.state))
+//@   requires cliOK(c)
+//@   panics only-if ctx == nil
+//@   modifies c.localNode, c.remoteNode, c.sessionID, c.state, c.startRcv.fired, c.stopRcv.fired, c.transport.nRecv, c.transport.lastRecv, c.transport.connected
+//@   ensures err == nil ==> result0 != nil && c.sessionID == result0.ID && c.state == result0.State
+//@   ensures err != nil ==> result0 == nil
+//@   ensures err == nil && result0.State == SessionStateEstablished ==> c.localNode == result0.To && c.remoteNode == result0.From
+//@   ensures err == nil && result0.State != SessionStateEstablished ==> c.localNode == old(c.localNode) && c.remoteNode == old(c.remoteNode)
+//@   ensures err == nil && (result0.State == SessionStateFinished || result0.State == SessionStateFailed) ==> !c.transport.connected
+//@   ensures err == nil && old(c.state) != SessionStateEstablished ==> c.transport.nRecv == old(c.transport.nRecv) + 1 && istype(c.transport.lastRecv, *Session) && lastSes(c.channel) == result0
+//@   ensures step(c.state) >= step(old(c.state))
+
+//@ func (*ClientChannel).startNewSession
+//@   props C08
+//@   ensures err == nil && result0.State == SessionStateEstablished ==> c.startRcv.fired
+//@   ensures c.startRcv.fired && !old(c.startRcv.fired) ==> step(c.state) >= 3
+//@   ensures c.transport.nRecv >= old(c.transport.nRecv)
+//@   ensures step(c.state) >= step(old(c.state))
+//@   requires cliOK(c) && c.transport.nRecv == 0
+//@   panics only-if ctx == nil
+//@   modifies c.localNode, c.remoteNode, c.sessionID, c.state, c.startRcv.fired, c.stopRcv.fired, c.transport.nRecv, c.transport.lastRecv, c.transport.connected, c.transport.nSent, c.transport.lastSent, c.transport.nSentSes, c.transport.lastSes
+//@   ensures err == nil ==> result0 != nil && synced(c.channel) && lastSes(c.channel) == result0 && c.transport.nRecv == 1
+//@   ensures err == nil && result0.State == SessionStateEstablished ==> c.localNode == result0.To && c.remoteNode == result0.From
+//@   ensures err == nil && (result0.State == SessionStateFinished || result0.State == SessionStateFailed) ==> !c.transport.connected
+
+//@ func (*ClientChannel).negotiateSession
+//@   props C08
+//@   ensures err == nil && result0.State == SessionStateEstablished ==> c.startRcv.fired
+//@   ensures c.startRcv.fired && !old(c.startRcv.fired) ==> step(c.state) >= 3
+//@   ensures c.transport.nRecv >= old(c.transport.nRecv)
+//@   ensures step(c.state) >= step(old(c.state))
+//@   requires cliOK(c) && c.transport.nRecv > 0 && synced(c.channel)
+//@   panics only-if ctx == nil
+//@   modifies c.localNode, c.remoteNode, c.sessionID, c.state, c.startRcv.fired, c.stopRcv.fired, c.transport.nRecv, c.transport.lastRecv, c.transport.connected, c.transport.nSent, c.transport.lastSent, c.transport.nSentSes, c.transport.lastSes
+//@   ensures err == nil ==> result0 != nil && synced(c.channel) && lastSes(c.channel) == result0 && c.transport.nRecv > 0
+//@   ensures err == nil && result0.State == SessionStateEstablished ==> c.localNode == result0.To && c.remoteNode == result0.From
+//@   ensures err == nil && (result0.State == SessionStateFinished || result0.State == SessionStateFailed) ==> !c.transport.connected
+
+//@ func (*ClientChannel).authenticateSession
+//@   props C08
+//@   ensures err == nil && result0.State == SessionStateEstablished ==> c.startRcv.fired
+//@   ensures c.startRcv.fired && !old(c.startRcv.fired) ==> step(c.state) >= 3
+//@   ensures c.transport.nRecv >= old(c.transport.nRecv)
+//@   ensures step(c.state) >= step(old(c.state))
+//@   requires cliOK(c) && c.transport.nRecv > 0 && synced(c.channel) && auth != nil
+//@   panics only-if ctx == nil
+//@   modifies c.localNode, c.remoteNode, c.sessionID, c.state, c.startRcv.fired, c.stopRcv.fired, c.transport.nRecv, c.transport.lastRecv, c.transport.connected, c.transport.nSent, c.transport.lastSent, c.transport.nSentSes, c.transport.lastSes
+//@   ensures err == nil ==> result0 != nil && synced(c.channel) && lastSes(c.channel) == result0 && c.transport.nRecv > 0
+//@   ensures err == nil && result0.State == SessionStateEstablished ==> c.localNode == result0.To && c.remoteNode == result0.From
+//@   ensures err == nil && (result0.State == SessionStateFinished || result0.State == SessionStateFailed) ==> !c.transport.connected
+
+//@ func (*ClientChannel).sendFinishingSession
+//@   props C08
+//@   requires cliOK(c) && c.transport.nRecv > 0
+//@   modifies c.transport.nSent, c.transport.lastSent, c.transport.nSentSes, c.transport.lastSes, c.transport.connected
+
+//@ func (*ClientChannel).FinishSession
+//@   props C08
+//@   ensures c.startRcv.fired && !old(c.startRcv.fired) ==> step(c.state) >= 3
+//@   ensures c.transport.nRecv >= old(c.transport.nRecv)
+//@   ensures step(c.state) >= step(old(c.state))
+//@   requires cliOK(c) && c.transport.nRecv > 0
+//@   panics only-if ctx == nil
+//@   modifies c.localNode, c.remoteNode, c.sessionID, c.state, c.startRcv.fired, c.stopRcv.fired, c.transport.nRecv, c.transport.lastRecv, c.transport.connected, c.transport.nSent, c.transport.lastSent, c.transport.nSentSes, c.transport.lastSes
+//@   ensures err == nil ==> result0 != nil && c.state == result0.State
+//@   ensures err == nil && (result0.State == SessionStateFinished || result0.State == SessionStateFailed) ==> !c.transport.connected
+
+// Callbacks supplied by the application (assumptions: they return normally,
+// the authenticator returns a non-nil value, they do not touch the channel).
+//@ callback role compSelector(options) (result) : param compSelector of (*ClientChannel).EstablishSession, field ClientConfig.CompSelector
+//@   modifies nothing
+//@ callback role encryptSelector(options) (result) : param encryptSelector of (*ClientChannel).EstablishSession, field ClientConfig.EncryptSelector
+//@   modifies nothing
+//@ callback role authenticator(schemes, roundTrip) (result) : param authenticator of (*ClientChannel).EstablishSession, field ClientConfig.Authenticator
+//@   modifies nothing
+//@   ensures result != nil
+
+//@ func (*ClientChannel).EstablishSession
+//@   props C08
+//@   requires cliOK(c) && c.transport.nRecv == 0
+//@   panics only-if ctx == nil || authenticator == nil || c.state != SessionStateNew || compSelector == nil || encryptSelector == nil
+//@   modifies c.localNode, c.remoteNode, c.sessionID, c.state, c.startRcv.fired, c.stopRcv.fired, c.transport.nRecv, c.transport.lastRecv, c.transport.connected, c.transport.nSent, c.transport.lastSent, c.transport.nSentSes, c.transport.lastSes, c.transport.enc, c.transport.comp
+//@   loop 0 invariant ses != nil && c.sessionID == ses.ID && c.state == ses.State && c.transport.nRecv > 0 && cliOK(c)
+//@   loop 0 invariant step(c.state) < 3 ==> synced(c.channel) && lastSes(c.channel) == ses
+//@   loop 0 invariant c.startRcv.fired && !old(c.startRcv.fired) ==> step(c.state) >= 3
+//@   loop 0 invariant ses.State == SessionStateEstablished ==> c.startRcv.fired
+//@   loop 0 invariant ses.State == SessionStateEstablished ==> c.localNode == ses.To && c.remoteNode == ses.From
+//@   loop 0 invariant ses.State == SessionStateFinished || ses.State == SessionStateFailed ==> !c.transport.connected
+//@   ensures @truth err == nil ==> result0 != nil && c.sessionID == result0.ID && c.state == result0.State
+//@   ensures @lastword err == nil && step(c.state) < 3 ==> lastSes(c.channel) == result0
+//@   ensures @nodes err == nil && result0.State == SessionStateEstablished ==> c.localNode == result0.To && c.remoteNode == result0.From
+//@   ensures @rcv err == nil && result0.State == SessionStateEstablished ==> c.startRcv.fired
+//@   ensures @close err == nil && (result0.State == SessionStateFinished || result0.State == SessionStateFailed) ==> !c.transport.connected
+//@   ensures @started c.startRcv.fired && !old(c.startRcv.fired) ==> step(c.state) >= 3
+
+//@ func newChannel
+//@   props C06 C08
+//@   panics only-if t == nil || payloadnil(t)
+//@   modifies nothing
+//@   ensures result != nil && fresh(result) && result.transport == t && result.state == SessionStateNew && !result.client
+//@   ensures result.sessionID == "" && result.localNode == Node{} && result.remoteNode == Node{}
+//@   ensures !result.startRcv.fired && !result.stopRcv.fired
+
+//@ func NewClientChannel
+//@   props C08
+//@   panics only-if t == nil || payloadnil(t)
+//@   modifies nothing
+//@   ensures result != nil && fresh(result) && cliOK(result) && result.transport == t && result.state == SessionStateNew
+
+//@ callback role newTransport(ctx) (t, err) : field ClientConfig.NewTransport
+//@   modifies nothing
+//@   ensures err == nil ==> t != nil && !payloadnil(t) && fresh(t) && t.nRecv == 0 && t.nSent == 0
+//@   note the transport factory returns a fresh, unused connection (or an error)
+
+//@ func (*Client).buildChannel
+//@   props C08
+//@   requires c != nil && c.config != nil && ctx != nil
+//@   requires c.config.NewTransport != nil && c.config.Authenticator != nil && c.config.CompSelector != nil && c.config.EncryptSelector != nil
+//@   modifies nothing
+//@   ensures @truth err == nil ==> result0 != nil && result0.state == SessionStateEstablished && result0.startRcv.fired
